@@ -22,6 +22,7 @@ ASSUMPTIONS = [
     "MaybeUninit / mem::swap / array iteration behave per core docs",
 ]
 RULES = {
+    "C04.CTOR": "entry point: every operand becomes the child of its own position, converted by into_future / into_stream only; nothing reorders, drops or duplicates operands",
     "C04.LIVE": "premises from the wake protocol, re-checked here for this family: task waker registered first, child polled with its own sub-waker (or the caller's context), no readiness lock across a child poll, a cleared bit is followed by a poll, re-arm after an item, readiness primitives / Wake::wake forward correctly",
     "C04.POS": "child's Ready payload is written exactly once, to the slot of the child's own position; result container is positional",
     "C04.CNT": "counter: correct initial value, +-1 exactly once per child completion and nowhere else; Ready only under the completion test; test evaluated after any completion before Pending",
@@ -39,6 +40,8 @@ def run(ctx):
         M = ctx.model(cfg)
         units = families.subwaker_units(M, ("join",), groups=False)
         c01.live_premises(ctx, M, units, "C04.LIVE")
+        from . import ctors
+        ctors.run_family(ctx, M, units, "C04.CTOR", cfg)
         for u in units:
             joinlike.rule_pos(ctx, M, u, "C04.POS")
             joinlike.rule_result(ctx, M, u, "C04.POS")
